@@ -19,7 +19,7 @@ RULE = ('transcripts in batch mode on generated ledgers: seeded sequences of .se
         'values, unknown names, non-field attribute names, wrong arity, unbalanced quotes), queries (SELECT / BALANCES / JOURNAL / '
         'PRINT), .run NAME / .run * / unknown query, .tables / .describe / .explain / unknown commands, legacy bare commands.  '
         'After every .set the output, the error text and the whole settings record are compared with the model; every line is '
-        'classified by the model dispatcher and by the shell; every query output is compared with rendering the API result with '
+        'classified by the model dispatcher and by the shell; named queries are read from the ledger (first directive of a name); every query output is compared with rendering the API result with '
         'the current settings (format plugin, numberify), `(empty)` for empty text results; the CLI is driven through click for '
         '-f / -m / -o / -q.  Non-trivial = transcript changes a setting and runs a query; distinct = distinct transcript.')
 ASSUMPTIONS = ['"prints what the API returns" is glue: correspondence only', 'interactive mode, pager and readline are out of scope (batch mode)',
